@@ -331,7 +331,10 @@ def run_case(doc: dict) -> dict:
                     for nd in g["nodes"]:
                         if nd["name"] in act and any(made.get(wn) is not None and made[wn] not in act for wn in nd.get("wait_for", [])):
                             ordering_cut = True
-                if not has_gates and out["status"] == "completed" and not faults and not ordering_cut:
+                # (nor when a waiter has a defaulted parameter: in the unscoped run it may legitimately have run once on the
+                #  default and never again - C17 - whereas the scoped run is handed the upstream value by the caller)
+                sticky = any(nd.get("wait_for") and any("default" in q for q in nd.get("params", [])) for nd, _d, _p in iter_nodes(g))
+                if not has_gates and out["status"] == "completed" and not faults and not ordering_cut and not sticky:
                     diff = {k: (v, ref["values"][k]) for k, v in vals.items() if k in ref["values"] and canon(v) != canon(ref["values"][k])}
                     if diff:
                         viol.append((f"{tag}:scoped_value_differs_from_unscoped_run", {"diff(scoped,unscoped)": diff, "entry": doc.get("entry")}))
